@@ -113,11 +113,26 @@ func (ra readerAdapter) isPayloadRead(call ssa.CallInstruction) bool {
 	return false
 }
 
+// isEnvCopyOf: the instruction copies out of the adapter's envelope array.
+func isEnvCopyOf(in ssa.Instruction, ra readerAdapter) bool {
+	call, ok := in.(ssa.CallInstruction)
+	if !ok || CalleeName(call) != "builtin copy" {
+		return false
+	}
+	src, ok := call.Common().Args[1].(*ssa.Slice)
+	if !ok {
+		return false
+	}
+	fa, ok := src.X.(*ssa.FieldAddr)
+	return ok && FieldOfAddr(fa) == ra.envF
+}
+
 func runC08(c *Ctx) {
 	p := c.P
 	// clauses this property shares with others (see DESIGN.md section 6a)
 	defer c.ImportRules("C01", "C01.1")
 	defer c.ImportRules("C16", "C16.5")
+	defer c.ImportRules("C10", "C10.6")
 	c.Rule("C08.1", "reader adapters: envelope bytes are exhausted before payload bytes; cursor updates account for the bytes copied", 6)
 	ras := readerAdapters(p)
 	if len(ras) < 2 {
@@ -233,6 +248,52 @@ func runC08(c *Ctx) {
 			}
 			c.Check(good, "C08.1", FuncName(ra.read), "copy-accounts-bytes", call.Pos(),
 				"the cursor update after copying envelope bytes accounts exactly for the bytes copied", why)
+			// ... and the count handed back to the caller includes exactly those bytes: it derives
+			// from the cursor (as loaded before the reset), len(data) or copy's own result - not
+			// from a constant such as the envelope's full length
+			okCount, nRets := true, 0
+			var badAt string
+			ForEachInstr(ra.read, func(in ssa.Instruction) {
+				ret, isRet := in.(*ssa.Return)
+				if !isRet || ret.Block() == ra.read.Recover {
+					return
+				}
+				otherCopy := func(x ssa.Instruction) bool { return x != ssa.Instruction(call) && isEnvCopyOf(x, ra) }
+				reach, _ := PathQuery{Target: func(x ssa.Instruction) bool { return x == in }, Avoid: otherCopy}.Search(ra.read, call)
+				if !reach {
+					return
+				}
+				rv := ReturnValues(ret)
+				if len(rv) != 2 || !IsNilConst(rv[1]) {
+					return
+				}
+				if k, isK := ConstInt(rv[0]); isK && k == 0 {
+					return
+				}
+				nRets++
+				src, posConst := false, false
+				for _, l := range Origins(rv[0]) {
+					switch {
+					case l.Kind == "load" && l.Field == ra.cursorF:
+						src = true
+					case l.Kind == "call" && (CalleeName(l.Call) == "builtin len" || l.Call == call):
+						src = true
+					case l.Kind == "const":
+						if k, isK := ConstInt(l.V); isK && k > 0 {
+							posConst = true
+						}
+					}
+				}
+				if !src || posConst {
+					okCount = false
+					badAt = p.Pos(ret.Pos())
+				}
+			})
+			if nRets > 0 {
+				c.Check(okCount, "C08.1", FuncName(ra.read), "copy-reported-in-count", call.Pos(),
+					"the count returned after copying envelope bytes derives from the cursor / len(data) / copy's result",
+					"after copying the pending envelope bytes the returned count (return at "+badAt+") is not derived from the number of bytes actually pending (a constant such as the full envelope length): when the envelope is handed out in two pieces the second Read reports more bytes than it wrote, or leaves a gap before the payload")
+			}
 		}
 	}
 
